@@ -34,7 +34,7 @@ func raceSignatures(log string) map[string]string {
 		if !strings.Contains(rep, "DATA RACE") {
 			continue
 		}
-		parts := regexp.MustCompile(`(?m)^(?:Previous )?(?:[Rr]ead|[Ww]rite|atomic [a-z]+) (?:at|by) .*$`).Split(rep, -1)
+		parts := raceAccess.Split(rep, -1)
 		var sites []string
 		for _, p := range parts[1:] {
 			if i := strings.Index(p, "\n\n"); i >= 0 {
@@ -59,25 +59,32 @@ func raceSignatures(log string) map[string]string {
 	return out
 }
 
-// known-finding class for race reports: C18.shared_cached_blocks = an attach-side WRITER of a
-// shared cached block (which holds the block's lock) against a READER that does not take it.
-// Two writers racing with each other (a removed lock) are NOT in the class.
-func raceClass(sig string) string {
-	writers := []string{"eth.(*Bytes).Write", "eth.(*Byte).Write", "eth.(*Block).Tx", "eth.(*Logs).Add",
-		"jrpc2.(*Client).logs", "jrpc2.(*Client).receipts", "jrpc2.(*Client).traces", "jrpc2.setHash"}
-	sites := strings.Split(sig, " <-> ")
-	if len(sites) != 2 {
+// known-finding class for race reports: C18.shared_cached_blocks = the FETCH/ATTACH side of a shared
+// cached block (Client.logs / receipts / traces: decoding a response whose byte slices are then
+// attached, or attaching under the block's lock) against an access OUTSIDE those functions that does
+// not take the block's lock (a task reading the block it was handed). Decided on the two complete
+// stacks of the report: exactly one of them runs inside an attach function. Two attach-side accesses
+// racing with each other (a removed lock), and any race with no attach side at all (head cache,
+// segment cache, partition goroutines, manager), are NOT in the class.
+var raceAccess = regexp.MustCompile(`(?m)^(?:Previous )?(?:[Rr]ead|[Ww]rite|atomic [a-z]+) (?:at|by) .*$`)
+
+func raceClass(sig, rep string) string {
+	parts := raceAccess.Split(rep, -1)
+	if len(parts) < 3 {
 		return ""
 	}
-	isW := func(s string) bool {
-		for _, k := range writers {
-			if strings.HasPrefix(s, k) {
+	attach := func(stack string) bool {
+		if i := strings.Index(stack, "\n\n"); i >= 0 {
+			stack = stack[:i]
+		}
+		for _, f := range []string{"jrpc2.(*Client).logs(", "jrpc2.(*Client).receipts(", "jrpc2.(*Client).traces("} {
+			if strings.Contains(stack, f) {
 				return true
 			}
 		}
 		return false
 	}
-	if isW(sites[0]) != isW(sites[1]) {
+	if attach(parts[1]) != attach(parts[2]) {
 		return "C18.shared_cached_blocks"
 	}
 	return ""
@@ -187,8 +194,8 @@ func runC18(e *core.Env) error {
 	}
 	sort.Strings(names)
 	for _, sig := range names {
-		e.Add(core.Case{Impl: "data race: " + sig, Spec: "no data race", Class: raceClass(sig), Key: "race " + sig, Nontrivial: true,
-			Tags: []string{"race-report", "class=" + raceClass(sig)}, Detail: map[string]any{"report": strings.Split(sigs[sig], "\n")}})
+		e.Add(core.Case{Impl: "data race: " + sig, Spec: "no data race", Class: raceClass(sig, sigs[sig]), Key: "race " + sig, Nontrivial: true,
+			Tags: []string{"race-report", "class=" + raceClass(sig, sigs[sig])}, Detail: map[string]any{"report": strings.Split(sigs[sig], "\n")}})
 	}
 	e.Add(core.Case{Impl: fmt.Sprintf("ran %d concurrent steps", min(concurrentSteps, 1)), Spec: "ran 1 concurrent steps", Key: "c18-ran", Nontrivial: true, Tags: []string{"scenarios"}})
 	e.Add(core.Case{Impl: "scenario-b", Spec: "scenario-b", Key: "c18-b", Nontrivial: true, Tags: []string{"scenarios"}})
